@@ -13,7 +13,8 @@ MODULE = "HttpcoreModel.Props.C02Chunked"
 THEOREMS = [f"Httpcore.C02.{n}" for n in (
     "h1_segmentation", "h1_segmentation_open", "h1_interim_skipped", "h1_body_content_length", "h1_truncation_cl",
     "h1_truncation_head", "h1_body_until_close", "headGives_of_extract", "extract_head_status",
-    "h2_body_exact", "h2_truncation", "recv_is_strict", "h1_body_chunked")]
+    "h2_body_exact", "h2_truncation", "recv_is_strict", "h1_body_chunked")] + [
+    f"Httpcore.C02H.{n}" for n in ("parse_head_roundtrip", "head_ends_where_it_ends", "final_head_delivered", "wellFormed_of_b")]
 TRUSTED = [
     "Lean 4.33 kernel; axioms per theorem under coverage.theorems",
     "hand-written byte-level model of h11 0.14's response reader and of httpcore's receive loops (H1Read/H1Obs), tied by differential execution on structured, cut and malformed streams (this run)",
@@ -103,6 +104,59 @@ def oracle_truncated(rec, r, segs, impl, cut, total, head_len):
 
 H2_PROFILE = dict(max_connections=1, init_max_streams=10, p_rst=0.25, p_eof=0.05, downs=[0, 1, 10, 3000, 70000], ups=[0, 0, 5],
                   padding=True, p_ping=0.1, empty_data=True)
+
+
+def run_head_roundtrip(ctx, rec, driver):
+    """The theorems of Props/C02Head.lean applied to the implementation: heads are rendered by the *model* (`h1head`), which also decides
+    whether a head is well-formed; for every well-formed final head the real reader (h11 + httpcore) must report exactly that version,
+    status, reason phrase and header list, and exactly the body that follows it."""
+    if not driver:
+        return
+    rng = ctx.rng
+    tok = b"!#$%&'*+-.^_`|~0123456789abcdefghijklmnopqrstuvwxyzABCDEFGHIJKLMNOPQRSTUVWXYZ"
+    vch = bytes(range(33, 127)) + bytes(range(128, 256))
+    cases = []
+    for _ in range(300 if ctx.quick else 6000):
+        a, b = 49, rng.choice([49, 49, 49, 48])
+        status = rng.choice([200, 200, 201, 204, 206, 299, 300, 304, 404, 418, 500, 599, 600, 999, rng.randint(200, 999)])
+        d1, d2, d3 = [48 + int(c) for c in str(status)]
+        reason = rng.choice([b"OK", b"", b"Not Found", b"a\tb  c", bytes(rng.choice(vch + b" \t") for _ in range(rng.randint(0, 12)))])
+        hs = []
+        for _ in range(rng.randint(0, 5)):
+            name = bytes(rng.choice(tok) for _ in range(rng.randint(1, 10)))
+            if name.lower() in (b"content-length", b"transfer-encoding", b"connection", b"upgrade"):
+                name = b"x-" + name
+            k = rng.randint(0, 12)
+            val = bytes(rng.choice(vch) for _ in range(min(k, 1))) + bytes(rng.choice(vch + b"  \t") for _ in range(max(k - 2, 0))) + \
+                bytes(rng.choice(vch) for _ in range(1 if k > 1 else 0))
+            if rng.random() < 0.05:
+                val = b" " + val          # not a field value as the model renders it (wf = 0)
+            hs.append((name, val))
+        body = bytes(rng.randrange(256) for _ in range(rng.choice([0, 1, 5, 200])))
+        bodyless = status in (204, 304)
+        framing = rng.choice(["cl", "cl", "close"])
+        if framing == "cl":
+            hs.insert(rng.randint(0, len(hs)), (rng.choice([b"Content-Length", b"content-length"]), str(0 if bodyless else len(body)).encode()))
+        cases.append((a, b, d1, d2, d3, status, reason, hs, b"" if bodyless else body, framing))
+    lines = [f"h1head {a} {b} {d1} {d2} {d3} {core.hexb(r) if r else '-'} " + (",".join(core.hexb(n) + ":" + core.hexb(v) for n, v in hs) if hs else "-")
+             for a, b, d1, d2, d3, _, r, hs, _, _ in cases]
+    answers = driver.run(lines)
+    for (a, b, d1, d2, d3, status, reason, hs, body, framing), ans in zip(cases, answers):
+        d = core.kv(ans)
+        rec.evals += 1
+        rec.dist["head-roundtrip:wf=" + d["wf"]] += 1
+        if d["wf"] != "1":
+            continue
+        wire = core.unhex(d["render"]) + body
+        segs = h1gen.cuts_random(rng, wire, 4)
+        impl = h1gen.read_response(b"GET", segs, eof=True)
+        rec.distinct.add(("head-roundtrip", wire))
+        want = {"status": status, "reason": reason, "version": b"HTTP/" + bytes([a, 46, b]), "headers": hs, "body": body}
+        got = {k: impl.get(k) for k in want}
+        if impl["outcome"] != "complete" or got != want:
+            rec.fail("head-or-body-not-exact", {"how": "model-rendered head"},
+                     {"wire": repr(wire)[:600], "segments": len(segs), "outcome": impl["outcome"], "exc": impl.get("exc"),
+                      "want": {k: repr(v)[:300] for k, v in want.items()}, "got": {k: repr(v)[:300] for k, v in got.items()}})
 
 
 def run_h2(ctx, rec, driver):
@@ -241,6 +295,7 @@ def run(ctx, driver):
         if len(rec.samples) < 3 and kind == "crlf-cuts" and r["framing"] == "chunked":
             rec.samples.append({"kind": kind, "segments": [repr(s)[:60] for s in segs][:8], "impl_outcome": impl["outcome"],
                                 "impl_status": impl["status"], "body_len": len(impl["body"]), "model": (ans or "")[:160]})
+    run_head_roundtrip(ctx, rec, driver)
     run_h2(ctx, rec, driver)
     if rec.disagreements:
         ctx.broken.append({"kind": "correspondence", "family": "C02/B2 H1 reader + H2 receive", "first": rec.disagreements[:3],
